@@ -38,7 +38,13 @@ def as_datetime(v):
         return v
     if isinstance(v, dt.date):
         return dt.datetime(v.year, v.month, v.day)
+    if isinstance(v, dt.time):
+        # a time of day stands for that time TODAY (documented); the run is discarded if the date changes while it lasts
+        return dt.datetime.combine(TODAY, v)
     raise TypeError(v)
+
+
+TODAY = dt.date.today()
 
 
 # ------------------------------------------------------------------ parsers
@@ -166,8 +172,19 @@ def frame_of(backend, doc):
 
 
 # ------------------------------------------------------------------ datasets
-TEXT_POOL = ["alpha", "Beta <b>", "x & y", "\"quoted\"", "naïve", "日本", "a'b", "émile", "tick>tock", "co-op", "Ω mega", "plain text"]
+TEXT_POOL = ["alpha", "Beta <b>", "x & y", "\"quoted\"", "naïve", "日本", "a'b", "émile", "tick>tock", "co-op", "Ω mega", "plain text",
+             "wait\u2026", "5\u00a0km", "\ufb01ne", "\u00bd cup", "x\u00b2", "\u00b5m", "n\u00ba 5"]
+
+
+def _unaccented(c):
+    import unicodedata
+    dec = unicodedata.decomposition(c)
+    return (dec == "" or dec.startswith("<")) and unicodedata.combining(c) == 0
 COLORS = ["#222", "#1f77b4", "#ABC", "#a1B2c3", "fff", "0f0f0f"]
+
+
+GAPFRAC = [0.12]
+TIMEVALS = [False]
 
 
 def make_dataset(rng, kind, n=None):
@@ -186,17 +203,33 @@ def make_dataset(rng, kind, n=None):
         if micro:
             span = rng.choice([dt.timedelta(milliseconds=10), dt.timedelta(milliseconds=137), dt.timedelta(seconds=2), dt.timedelta(minutes=3)])
             start += dt.timedelta(hours=rng.randint(0, 23), minutes=rng.randint(0, 59), seconds=rng.randint(0, 59), microseconds=rng.randint(0, 999999))
+        # wall-clock times around the daylight-saving changes of the zones of C18 (inside a spring-forward gap such a value does
+        # not exist as a local time, in a fall-back hour it exists twice): naive values must be taken as they are
+        gap = (not micro) and rng.random() < GAPFRAC[0]
+        if gap:
+            anchor = rng.choice([dt.datetime(2024, 3, 10, 2, 30), dt.datetime(2011, 3, 13, 2, 30), dt.datetime(2024, 11, 3, 1, 30),
+                                 dt.datetime(2024, 10, 6, 2, 15), dt.datetime(2011, 10, 2, 2, 10), dt.datetime(2024, 4, 7, 1, 45),
+                                 dt.datetime(2024, 9, 29, 3, 0), dt.datetime(2011, 9, 25, 3, 0), dt.datetime(2024, 4, 7, 3, 15)])
+            start = anchor - dt.timedelta(minutes=rng.choice([0, 10, 45, 90]))
+            span = dt.timedelta(minutes=rng.choice([25, 40, 55, 120]))
         for i in range(n):
             t = start + span * rng.random()
+            if gap and i == 0:
+                t = anchor
             if not micro:
                 t = t.replace(microsecond=(t.microsecond // 1000) * 1000)
-            form = rng.choice(["datetime", "datetime", "date"]) if kind == "time" and not micro else "datetime"
+            form = rng.choice(["datetime", "datetime", "date"]) if kind == "time" and not micro and not gap else "datetime"
             if form == "date":
                 data.append({"time": t.date()})
             else:
-                if rng.random() < 0.3 and not micro:
+                if rng.random() < 0.3 and not micro and not gap:
                     t = t.replace(hour=0, minute=0, second=0, microsecond=0)
                 data.append({"time": t})
+    if kind == "time" and TIMEVALS[0] and rng.random() < 0.1:
+        # datetime.time values (with microseconds), all within one day
+        h0 = rng.randint(0, 20)
+        data = [{"time": dt.time(rng.randint(h0, h0 + 3), rng.randint(0, 59), rng.randint(0, 59), rng.choice([0, 0, 750000, rng.randint(0, 999999)]))}
+                for _ in range(n)]
     for i, d in enumerate(data):
         d["id"] = i + 1
         d["width"] = rng.choice([10, 20, 37.5, 60, 25])
@@ -311,7 +344,9 @@ def drawing_record(backend, tl, doc, opts, data, kind):
     for n in nodes:
         d = by_id[n["id"]]
         e = {"id": d["id"], "w5": q5(d["width"]), "h5": q5(13.0), "text": d.get("text") or "", "hastext": 1 if d.get("text") else 0,
-             "ascii": 1 if all(ord(c) < 128 for c in (d.get("text") or "")) else 0}
+             # "ascii": the text has no accented character (no canonical decomposition, no combining mark), so the conversion
+             # for TeX must leave it exactly as it is - plain ASCII, but also CJK, Greek, compatibility characters
+             "ascii": 1 if all(ord(c) < 128 or _unaccented(c) for c in (d.get("text") or "")) else 0}
         if kind == "linear":
             e["t3"] = int(round(Fraction(d["time"]) * 1000))
         else:
@@ -748,10 +783,14 @@ def main():
     recs = []
     errors = []
     if mode == "draw":
+        GAPFRAC[0] = job.get("gapfrac", 0.12)
+        TIMEVALS[0] = bool(job.get("timevals", False))
         for _ in range(job["count"]):
             data, opts, kind = draw_case(rng, ns_min=job.get("ns_min", 0))
             try:
                 both = export_both(data, opts, kind)
+                if dt.date.today() != TODAY and any(isinstance(d["time"], dt.time) for d in data):
+                    continue        # midnight passed during the run: "today" is no longer the day the record would assume
             except Exception as ex:
                 errors.append({"err": type(ex).__name__, "msg": str(ex)[:200]})
                 continue
